@@ -47,6 +47,7 @@ def run(ck, ctx):
     ck.rule("R11.13", _c14t.READER_TEXT + " (shared with C14 R14.13)")
     from . import c12 as _c12it
     ck.rule("R11.14", _c12it.IDS_TEXT + " (shared with C12 R12.11)")
+    ck.rule("R11.15", _c10t.JUDGE_TEXT + " (shared with C10 R10.11)")
     ck.rule("R11.12", _c10t.NAME_TEXT + " (shared with C10 R10.10)")
     ck.rule("R11.10", _c12.WRITER_TEXT + " (shared with C12 R12.8)")
     for cfg in ctx.configs:
@@ -72,6 +73,7 @@ def run(ck, ctx):
         from . import c12 as _c12i
         _c12i.ids_rule(ck, prog, cfg, "R11.14")
         _c10.r1010(ck, prog, cfg, "R11.12")
+        _c10.r1011(ck, prog, cfg, "R11.15")
         from . import c10
         c10.file_loop_rule(ck, prog, cfg, "R11.6")
         _r116(ck, prog, cfg)
